@@ -82,7 +82,7 @@ ConnEdges(pops, c) ==
       Row(i, j) == IF j > ns THEN <<>>
                    ELSE (LET w == IF c.w = <<>> THEN c.sw ELSE c.w[i][j] IN
                          IF w = 0 THEN <<>>
-                         ELSE <<[s |-> First(pops, c.sp) + j - 1, sv |-> "x", t |-> First(pops, c.tp) + i - 1, tv |-> c.tv,
+                         ELSE <<[s |-> First(pops, c.sp) + j - 1, sv |-> (IF "sv" \in DOMAIN c THEN c.sv ELSE "x"), t |-> First(pops, c.tp) + i - 1, tv |-> c.tv,
                                  w |-> w, tm |-> c.cpl \in {"pre", "pre6"}, df |-> c.cpl = "diff",
                                  g |-> CASE c.cpl = "pre" -> 3 [] c.cpl = "pre2" -> 6 [] c.cpl = "pre6" -> 6 [] OTHER -> 1]>>) \o Row(i, j + 1)
       RECURSIVE Rows(_)
@@ -105,6 +105,10 @@ C16Progs(sizes) ==
   { Expand(<<[kind |-> "L", n |-> ns], [kind |-> "S", n |-> nt]>>,
            <<Conn(1, 2, "u", Mat(nt, ns, pat), 0, cpl), Conn(2, 1, "v", <<>>, sw, "none")>>) :
         ns \in sizes, nt \in sizes, pat \in WPats, cpl \in {"none", "diff"}, sw \in {1, -3} }
+  \cup \* the source variable is not the declared output of its operator (z of prod, whose output is u)
+  { Expand(<<[kind |-> "P", n |-> ns], [kind |-> "L", n |-> nt]>>,
+           <<[sp |-> 1, tp |-> 2, tv |-> tv, w |-> Mat(nt, ns, pat), sw |-> 0, cpl |-> cpl, sv |-> "z"]>>) :
+        ns \in sizes, nt \in sizes, tv \in {"u", "v"}, pat \in {<<2, 0, -3>>, <<2>>}, cpl \in {"none", "pre"} }
   \cup \* two scalar (global) weights converging on one target variable
   { Expand(<<[kind |-> "L", n |-> ns], [kind |-> "L", n |-> 2], [kind |-> "S", n |-> 3]>>,
            <<Conn(1, 3, "u", <<>>, 2, "none"), Conn(2, 3, "u", <<>>, 0 - 3, "none")>>) : ns \in sizes }
